@@ -596,6 +596,17 @@ class TransferManager(BaseManager):
             upload._transfer_task.add_done_callback(
                 upload._transfer_task_complete
             )
+            upload._transfer_task.add_done_callback(
+                self._on_upload_task_done
+            )
+
+    def _on_upload_task_done(self, task: asyncio.Task):
+        # An upload whose previous task is still in flight is skipped by the
+        # management cycle (see `manage_transfers`). If the upload was put back
+        # in the queue before its task ended (f.e. the peer requested a failed
+        # upload again while the task was still notifying the peer) nothing
+        # else would trigger a new cycle once the task has ended
+        self.request_management_cycle(_RequestFlag.TRANSFER_CHANGE)
 
     async def manage_shares_changed(self):
         logger.debug("processing shares or block list changes")
